@@ -56,7 +56,7 @@ HIST = {
  "C16-f": "missed at first (no full long block: needs > 10^5 segment keys in one Elias-Fano bucket) -> dense burst of ~10^6 keys between two far outliers among the '#big' shared indexes",
  "C02-f": "same edit as C09-d / C14-e",
  "C18-f": "same family as C01-d / C02-d / C03-c (under-delivered OpenMP team), reached through the C wrapper",
- "C01-g": "NOT reported by any check (see DESIGN section 7): needs ~4*10^7 keys and 1 of 8 (stride, epsilon) pairs with Floating=double; the '#giant' cases added after it cover one pair per run and report the sibling change C09-g",
+ "C01-g": "missed at first and in the full re-evaluation (one giant length per run meets the upward-rounding coincidence with p ~ 0.2) -> second '#giant' configuration drawing 8 lengths per quick run (uint32 keys, eps 16, Floating=double); statistical: reported on 3 of 3 seeds",
  "C09-g": "missed at first (no segment longer than ~2*10^7 positions) -> '#giant' cases: 3.6-4.4*10^7 equally spaced keys, one thread, optimised flavours",
  "C07-g": "missed at first (no floating family had gaps beyond 1e26) -> wide_gaps family for double keys (gaps 1e20..1e37: subnormal upper-level slopes)",
  "C11-g": "missed at first (mapped containers had <= 16384 keys in the quick tier) -> chunk-built mapped cases with an off-trend tail and a per-case thread count",
